@@ -42,6 +42,10 @@ Definition nth_mod {A} (d : A) (l : list A) (i : nat) : A :=
 
 Fixpoint seqn (n : nat) : list nat := match n with O => [] | S k => seqn k ++ [k] end.
 
+(* length of the long slice variant: indices 10, 11 and 12 have two digits (a key or index handled digit by digit, a
+   one-digit shortcut with an off-by-one bound) *)
+Definition long_len : nat := 13.
+
 (* value variants of a node; [wide] = number of variants kept per struct *)
 Fixpoint variants (n : node) {struct n} : list val :=
   match n with
@@ -72,7 +76,8 @@ Fixpoint variants (n : node) {struct n} : list val :=
                let vs := variants en in
                [VSlice true [] 0; VSlice false [] 2; VSlice false [nth_mod (VInt 0) vs 1] 0;
                 VSlice false [nth_mod (VInt 0) vs 2; nth_mod (VInt 0) vs 0; nth_mod (VInt 0) vs 1] 1;
-                VSlice false [nth_mod (VInt 0) vs 1; nth_mod (VInt 0) vs 2] 0]     (* other elements at the same indices *)
+                VSlice false [nth_mod (VInt 0) vs 1; nth_mod (VInt 0) vs 2] 0;     (* other elements at the same indices *)
+                VSlice false (map (fun i => nth_mod (VInt 0) vs i) (seqn long_len)) 3]   (* two-digit indices *)
              | None => []
              end
       end in
@@ -90,6 +95,23 @@ Fixpoint inf_floats (v : val) {struct v} : val :=
   | VMap n kvs => VMap n ((fix go (l : list (val * val)) : list (val * val) :=
                              match l with [] => [] | (k, x) :: r => (k, inf_floats x) :: go r end) kvs)
   | VPtr (Some x) => VPtr (Some (inf_floats x))
+  | _ => v
+  end.
+
+(* the same value with the first key of every map with float keys replaced by NaN (a key no lookup finds again: code that
+   stores an entry back under its key inserts a new entry instead) *)
+Fixpoint nan_keys (v : val) {struct v} : val :=
+  match v with
+  | VStruct fs => VStruct ((fix go (l : list val) : list val := match l with [] => [] | x :: r => nan_keys x :: go r end) fs)
+  | VSlice n es e => VSlice n ((fix go (l : list val) : list val := match l with [] => [] | x :: r => nan_keys x :: go r end) es) e
+  | VMap n kvs =>
+    let kvs' := (fix go (l : list (val * val)) : list (val * val) :=
+                   match l with [] => [] | (k, x) :: r => (k, nan_keys x) :: go r end) kvs in
+    VMap n (match kvs' with
+            | (VFloat _, x) :: r => (VFloat S754_nan, x) :: r
+            | l => l
+            end)
+  | VPtr (Some x) => VPtr (Some (nan_keys x))
   | _ => v
   end.
 
@@ -160,7 +182,7 @@ Fixpoint paths (n : node) (v : val) {struct n} : list tagged :=
           (fix go (i : nat) (es : list val) : list tagged :=
              match es with
              | [] => []
-             | e :: r => pre (nat_to_string i) (paths en e) ++ go (S i) r
+             | e :: r => (if Nat.ltb 6 len && Nat.leb 2 i && Nat.ltb (i + 4) len then [] else pre (nat_to_string i) (paths en e)) ++ go (S i) r
              end) 0%nat es ++
           [(["-1"], "index-1"); ([nat_to_string len], "indexlen"); ([nat_to_string (S len)], "indexlen1");
            ([huge_index], "indexhuge"); (["x!"], "unparsable"); (["-1"; "q"], "index-1"); ([nat_to_string len; "q"], "indexlen");
